@@ -54,7 +54,7 @@ std::string srcloc(State &S) {
     int line = F.f->code[F.pc].line;
     std::string s = F.f->name + "@" + F.f->file + ":" + std::to_string(line);
     if (first.empty()) first = s;
-    if (F.f->file.find("/repo/") != std::string::npos || F.f->file.find("sgramm") != std::string::npos) return s;
+    if (F.f->file.find("/src/") != std::string::npos || F.f->file.find("sgramm") != std::string::npos) return s;   /* a library source file */
   }
   return first;
 }
